@@ -37,6 +37,28 @@ def loop_items(S, uid, c, idx):
         init = eng.proj_field(init, idx)
         step = eng.proj_field(step, idx)
     pre = hasher_items(S, init)
+    # a loop over a literal array ( `for x in [a, b, c] { builder.consume(x) }` ) is the explicit sequence
+    arr = literal_array(info.src) if info.kind == "iter" and info.src is not None and not getattr(info, "early", []) else None
+    if arr is not None:
+        lvh0 = ("field", ("lv", uid, c), idx, None) if idx is not None else ("lv", uid, c)
+        lvc0 = alg.canon(lvh0)
+        out = list(pre)
+        okx = True
+        from .sym import State
+        st_in = State(info.init_store, 1)
+        for e in arr:
+            if e[0] == "ref":
+                # `[&a, &b]`: a borrow of a local; the loop body does not write it (it only reads elements), so its
+                # value at loop entry is its value in every iteration
+                e = ("refv", eng.deref_value(st_in, e))
+            bj = hasher_items(S, eng.subst(step, {("elem", uid, 0): e}))
+            if bj and bj[0] == ("base", lvc0):
+                out += bj[1:]
+            else:
+                okx = False
+                break
+        if okx:
+            return out
     sub = alg.loop_sub(info) if info.kind == "iter" else {}
     lvh = ("field", ("lv", uid, c), idx, None) if idx is not None else ("lv", uid, c)
     body = hasher_items(S, eng.subst(step, sub))
@@ -49,6 +71,16 @@ def loop_items(S, uid, c, idx):
         shape_ok = info.src is not None and plain_shape(info.src)
         return pre + [("each" if (whole and shape_ok) else "each?", leaves, tuple(body))]
     return pre + [("loop?", uid, c)]
+
+
+def literal_array(shape):
+    """Elements of an iterator shape that walks a literal array once, front to back; else None."""
+    k = shape[0]
+    if k in ("vals", "refs") and shape[1][0] == "array":
+        return list(shape[1][1])
+    if k == "array":
+        return list(shape[1])
+    return None
 
 
 def plain_shape(shape):
